@@ -1,8 +1,85 @@
-/- Driver handler of C17: protocol line (already split into tokens, without the leading "c17") -> answer. -/
+/- Driver handler of C17: protocol line (already split into tokens) -> answer.  Batched ops answer with a
+   comma-separated list in a compact form (integers in decimal, other rationals `p/q`, errors `E<tag>`). -/
 import Pycel.Model.Proto
+import Pycel.Model.DateTime
 namespace Pycel.Drv.C17
+open Pycel Pycel.DateTime
+
+/-- compact canonical form of a value -/
+def cv : Val → String
+  | .num q => if q.den = 1 then toString q.num else s!"{q.num}/{q.den}"
+  | .err e => "E" ++ e.tag
+  | v => v.enc
+
+def join (xs : List String) : String := ",".intercalate xs
+
+/-- lo, lo+step, … below hi -/
+def rangeStep (lo hi step : Int) : List Int :=
+  if step ≤ 0 then [] else
+  (List.range ((hi - lo + step - 1) / step).toNat).map fun (i : Nat) => lo + step * (i : Int)
+
+def rangeIncl (lo hi : Int) : List Int := rangeStep lo (hi + 1) 1
+
+def dayLine (n : Int) : String :=
+  let x : Rat := (n : Rat)
+  let y := yearFn x
+  let m := monthFn x
+  let d := dayFn x
+  let r : String := match y, m, d with
+    | .num yq, .num mq, .num dq => cv (dateFn yq.num mq.num dq.num)
+    | _, _, _ => "-"
+  s!"{cv y}.{cv m}.{cv d}.{cv (weekdayFn x)}.{r}"
+
+def fn1 (f : String) (x : Rat) : Option Val :=
+  match f with
+  | "year" => some (yearFn x) | "month" => some (monthFn x) | "day" => some (dayFn x)
+  | "weekday" => some (weekdayFn x)
+  | "hour" => some (hourFn x) | "minute" => some (minuteFn x) | "second" => some (secondFn x)
+  | _ => none
+
+def hmsLine (x : Rat) : String := s!"{cv (hourFn x)}:{cv (minuteFn x)}:{cv (secondFn x)}"
+
+def pairs : List Int → List (Int × Int)
+  | a :: b :: rest => (a, b) :: pairs rest
+  | _ => []
 
 def handle : List String → String
+  | ["c17", "ymd", lo, hi, step] =>
+    match lo.toInt?, hi.toInt?, step.toInt? with
+    | some lo, some hi, some step => join ((rangeStep lo hi step).map dayLine)
+    | _, _, _ => "!bad-arg"
+  | ["c17", "date", y, mlo, mhi, dlo, dhi] =>
+    match y.toInt?, mlo.toInt?, mhi.toInt?, dlo.toInt?, dhi.toInt? with
+    | some y, some mlo, some mhi, some dlo, some dhi =>
+      join ((rangeIncl mlo mhi).flatMap fun m => (rangeIncl dlo dhi).map fun d => cv (dateFn y m d))
+    | _, _, _, _, _ => "!bad-arg"
+  | ["c17", "inc", n, klo, khi] =>
+    match n.toInt?, klo.toInt?, khi.toInt? with
+    | some n, some klo, some khi =>
+      join ((rangeIncl klo khi).map fun k => s!"{cv (edateFn n k)}:{cv (eomonthFn n k)}")
+    | _, _, _ => "!bad-arg"
+  | "c17" :: "hms" :: xs =>
+    match xs.mapM decRat? with
+    | some qs => join (qs.map hmsLine)
+    | none => "!bad-arg"
+  | "c17" :: "yf" :: basis :: xs =>
+    match basis.toInt?, xs.mapM String.toInt? with
+    | some b, some ns => join ((pairs ns).map fun p => (yearfrac p.1 p.2 b).enc)
+    | _, _ => "!bad-arg"
+  | ["c17", "one", f, x] =>
+    match decRat? x with
+    | some q => match fn1 f q with
+      | some v => v.enc
+      | none => "!bad-op"
+    | none => "!bad-arg"
+  | ["c17", "date1", y, m, d] =>
+    match y.toInt?, m.toInt?, d.toInt? with
+    | some y, some m, some d => (dateFn y m d).enc
+    | _, _, _ => "!bad-arg"
+  | ["c17", "inc1", which, n, k] =>
+    match n.toInt?, k.toInt? with
+    | some n, some k => (monthsInc n k (which == "eomonth")).enc
+    | _, _ => "!bad-arg"
   | _ => "!bad-op"
 
 end Pycel.Drv.C17
